@@ -189,7 +189,7 @@ func evalGen(tier string, r *rng, emit func(string)) {
 		n = 30000
 	}
 	for i := 0; i < n; i++ {
-		stmts := genProgram(r, 3+r.intn(8), prop == "C07", false)
+		stmts := genEvalProgram(r, 3+r.intn(8), prop == "C07", false)
 		// either one input holding the whole program, or one input per top-level statement
 		var texts []string
 		if r.intn(3) == 0 {
